@@ -344,7 +344,7 @@ Definition exh_l : list op :=
     OAddLinks [(ex_pa, ex_pb); (ex_pa, ex_pl); (ex_pa, ex_pb); (ex_pa, ex_pa)];
     OAddPage ex_pxy false;
     OAddLinks [(ex_pxy, ex_pa); (ex_pb, ex_pa); (ex_pxy, ex_pa)] ].
-Definition exs_l : traph := run Domain [] exh_l.
+Notation exs_l := (run Domain [] exh_l).
 Definition ex_sgt : py_pm := mk_pm 128 (trie_file exs_l) 0.
 Definition ex_sgl : py_pm := mk_pm 16 (link_file exs_l) 0.
 
@@ -406,7 +406,7 @@ Proof.
   apply forallb_forall. vm_compute. reflexivity.
 Qed.
 Lemma ex_lrep_l : lrep (stubs exs_l) ex_sgl.
-Proof. split; reflexivity. Qed.
+Proof. split; [reflexivity|]. unfold ex_sgl, link_file. cbn [pm_array]. reflexivity. Qed.
 
 Example ex_links_by_theorem : exists sg',
   py_traph_get_page_links ex_sgt ex_sgl ex_pa true true true
@@ -423,3 +423,7 @@ Proof.
     by (vm_compute; reflexivity).
   exact H.
 Qed.
+
+Print Assumptions ex_links_all_switches.
+Print Assumptions ex_links_by_theorem.
+Print Assumptions py_traph_get_page_links_spec.
